@@ -218,7 +218,13 @@ def apply_event(cache, model, clock, ev, probs):
         exp = model.hits_for_key(ev[1], clock.now)
         if got != exp:
             probs.append(("key-hits", "get_hits_for_key=%d model %d" % (got, exp)))
+    # a snapshot is a value: one taken earlier must not move when the cache is used again
+    prev = getattr(model, "_held_snapshot", None)
+    if prev is not None and (prev[0].hits, prev[0].misses) != prev[1]:
+        probs.append(("snapshot-not-a-copy", "a statistics snapshot taken earlier changed from %s to %s after further use" % (
+            prev[1], (prev[0].hits, prev[0].misses))))
     snap = cache.get_statistics_snapshot()
+    model._held_snapshot = (snap, (snap.hits, snap.misses))
     if (snap.hits, snap.misses) != (model.hits, model.misses):
         probs.append(("counters", "hits/misses %d/%d model %d/%d" % (snap.hits, snap.misses, model.hits, model.misses)))
     if (cache.hits(), cache.misses()) != (snap.hits, snap.misses):
